@@ -313,13 +313,17 @@ def stepAdd (c : Ctl) (addr : String) (takeover : Option Bool) (createOk : Bool)
       addAfterCheck (c.removeReplica w.1 CkEnv.none) addr createOk snapFails newSnapOk setWoOk ck
     else (c, .refused)
 
-/-- the chain comparison of `VerifyRebuildReplica`: `none` = slice out of range (handler panic) -/
-def chainsAgree (rwc woc : List String) (ckp : String) : Option Bool :=
-  let indx := match rwc.idxOf? ckp with
-              | some i => i
-              | none   => rwc.length - 1
-  if rwc.length = 0 ∨ woc.length < indx + 1 then none
-  else some ((rwc.drop 1).take indx = (woc.drop 1).take indx)
+/-- the chain comparison of `VerifyRebuildReplica`: the members from the latest snapshot down to
+    the WO replica's checkpoint must coincide; a chain too short to hold them is refused -/
+def ckptIndex (rwc : List String) (ckp : String) : Nat :=
+  match rwc.idxOf? ckp with
+  | some i => i
+  | none   => rwc.length - 1
+
+def chainsAgree (rwc woc : List String) (ckp : String) : Bool :=
+  let indx := ckptIndex rwc ckp
+  if rwc.length < indx + 1 ∨ woc.length < indx + 1 then false
+  else (rwc.drop 1).take indx = (woc.drop 1).take indx
 
 /-- `VerifyRebuildReplica` -/
 def stepVerify (c : Ctl) (addr : String) (rwChain woChain : Option (List String)) (woCkpt : Option String)
@@ -332,9 +336,8 @@ def stepVerify (c : Ctl) (addr : String) (rwChain woChain : Option (List String)
     | some rwc, some woc, some ckp =>
       if ckp ≠ "" ∧ !rwc.contains ckp then (c, .refused) else
       match chainsAgree rwc woc ckp with
-      | none => (c, .failed)
-      | some false => (c, .refused)
-      | some true =>
+      | false => (c, .refused)
+      | true =>
         match rev with
         | none => (c, .refused)
         | some n =>
